@@ -43,7 +43,7 @@ func newExec(ld *Loader, db *ContractDB, pkg *Pkg, cf *ContractFile, specs *Spec
 		tenv: map[string]string{}, typeParams: map[string]bool{}, adts: map[string]adtSpec{}, localSpec: map[string]localSig{},
 		strLits: map[string]Term{}, opts: map[string]string{}, assumed: map[string]bool{},
 		closures: map[types.Object]*ast.FuncLit{}, knownFns: map[string]knownFn{}, tags: map[string]Term{},
-		spawnedRepeatedly: map[*ast.FuncLit]bool{}, usedAfter: map[types.Object]bool{}, wfSeen: map[string]bool{}}
+		spawnedRepeatedly: map[*ast.FuncLit]bool{}, usedAfter: map[types.Object]bool{}, wfSeen: map[string]bool{}, typeParamObjs: map[string]*types.TypeParam{}}
 	return x
 }
 
@@ -303,12 +303,24 @@ func verifyUnit(ld *Loader, db *ContractDB, specs *SpecLib, u *Unit) (res *UnitR
 		collectTP := func(l *types.TypeParamList) {
 			for i := 0; l != nil && i < l.Len(); i++ {
 				x.typeParams[l.At(i).Obj().Name()] = true
+				x.typeParamObjs[l.At(i).Obj().Name()] = l.At(i)
 			}
 		}
 		collectTP(sig.TypeParams())
 		collectTP(sig.RecvTypeParams())
 		x.scanLiterals(decl.Body)
 		x.collectLocalAssigns(decl.Body)
+	}
+	if u.Impl != nil && u.Recv != nil {
+		// type parameters of the implementer (as instantiated with themselves)
+		if ta := u.Recv.TypeArgs(); ta != nil {
+			for i := 0; i < ta.Len(); i++ {
+				if tp, ok := ta.At(i).(*types.TypeParam); ok {
+					x.typeParams[tp.Obj().Name()] = true
+					x.typeParamObjs[tp.Obj().Name()] = tp
+				}
+			}
+		}
 	}
 	switch {
 	case u.Impl != nil:
@@ -830,6 +842,15 @@ func (x *Exec) instUnit(u *Unit) {
 // lemmaUnit: a property-level consequence of contracts and spec functions.
 func (x *Exec) lemmaUnit(u *Unit) {
 	st := newState()
+	if u.Lemma.Raw != "" {
+		for _, dl := range u.CF.Decls {
+			if strings.HasPrefix(dl, "(") {
+				x.d.decl("raw:"+dl, dl)
+			}
+		}
+		x.oblige(st, "lemma", u.Lemma.Name, Term{S: u.Lemma.Raw, Sort: "Bool"}, nil, u.Lemma.Raw)
+		return
+	}
 	env := &CEnv{names: map[string]Term{}, st: st, old: st}
 	t, err := x.cevalSafe(env, u.Lemma.Expr, "Bool")
 	if err != nil {
